@@ -67,6 +67,15 @@ func ruleHelpers(c *Ctx, prop string) {
 		}
 		n++
 		why := hs.check(c, f)
+		if why != "" && hs.name == "ExtractMatrices" {
+			// the structural reading is one spelling of the loop; the contract itself is decided by table
+			if tw, decided := c.extractMatricesTable(f); decided {
+				why = tw
+				if tw == "" {
+					c.counts["R25.helpers_by_table"]++
+				}
+			}
+		}
 		c.decide(why == "", "R25", key, c.pos(f.Pos()), "ops."+hs.name+": "+hs.doc, "ops."+hs.name+" no longer has its contract ("+hs.doc+"): "+why)
 	}
 	c.counts["R25.helpers"] = n
@@ -1020,4 +1029,81 @@ func isShapeTail(v, t ssa.Value, k int64) bool {
 	}
 	nm, recv := tensorMethod(cl)
 	return nm == "Shape" && recv == t
+}
+
+// extractMatricesTable walks ops.ExtractMatrices(M, n, nDims, h) over tensors M of shape (1, n*h[, d]) whose
+// elements are their own positions: result[i] must be M[0, i*h:(i+1)*h, ...] with shape (h[, d]), for n in 1..4,
+// h in 1..3, d in {absent, 1, 3}. gorgonia's Slice (unit axes dropped), Materialize and Reshape are modelled by
+// their shape and content contracts.
+func (c *Ctx) extractMatricesTable(f *ssa.Function) (string, bool) {
+	if len(f.Params) != 4 {
+		return "", false
+	}
+	cells := 0
+	for n := int64(1); n <= 4; n++ {
+		for h := int64(1); h <= 3; h++ {
+			for _, d := range []int64{0, 1, 3} {
+				shape := []int64{1, n * h}
+				if d > 0 {
+					shape = append(shape, d)
+				}
+				heap := newHeap()
+				mk := func(l []int64) pval {
+					pl := make([]pval, len(l))
+					for i, v := range l {
+						pl[i] = pval{k: pInt, i: v}
+					}
+					return heap.alloc(pl)
+				}
+				total := prodInts(shape)
+				content := make([]int64, total)
+				for i := range content {
+					content[i] = int64(i)
+				}
+				M := pval{k: pShaped, i: 0, j: mk(shape).i, m: mk(content).i}
+				p := &pinterp{c: c, budget: 200000, objects: true}
+				res, hp := p.run(f, []pval{M, {k: pInt, i: n}, {k: pInt, i: int64(len(shape))}, {k: pInt, i: h}}, 0, heap)
+				if hp == nil || len(res) != 2 || res[1].k != pNil || res[0].k != pList || hp.lists[res[0].i] == nil {
+					return "", false
+				}
+				cells++
+				got := hp.lists[res[0].i]
+				desc := fmt.Sprintf("M of shape %s, %d matrices, hidden size %d", fmtInts(shape), n, h)
+				if int64(len(got)) != n {
+					return fmt.Sprintf("%s: %d matrices returned", desc, len(got)), true
+				}
+				inner := int64(1)
+				if d > 0 {
+					inner = d
+				}
+				for i, g := range got {
+					if g.k != pShaped || hp.lists[g.j] == nil {
+						return "", false
+					}
+					wantShape := []int64{h}
+					if d > 0 {
+						wantShape = append(wantShape, d)
+					}
+					var gs []int64
+					for _, e := range hp.lists[g.j] {
+						gs = append(gs, e.i)
+					}
+					if fmtInts(gs) != fmtInts(wantShape) {
+						return fmt.Sprintf("%s: matrix %d has shape %s, not %s", desc, i, fmtInts(gs), fmtInts(wantShape)), true
+					}
+					ct := hp.lists[g.m]
+					if g.m == 0 || ct == nil || int64(len(ct)) != h*inner {
+						return "", false
+					}
+					for k := int64(0); k < h*inner; k++ {
+						want := (int64(i)*h)*inner + k
+						if ct[k].k != pInt || ct[k].i != want {
+							return fmt.Sprintf("%s: element %d of matrix %d is element %d of M, the contract asks for element %d (rows %d..%d)", desc, k, i, ct[k].i, want, int64(i)*h, (int64(i)+1)*h-1), true
+						}
+					}
+				}
+			}
+		}
+	}
+	return "", cells > 0
 }
